@@ -119,18 +119,23 @@ class SBool:
     def __bool__(self):
         return ctx().branch(self.t)
 
+    @staticmethod
+    def _b(o):
+        t = term(o)
+        return t if z3.is_bool(t) else (t != 0)
+
     def __and__(self, o):
-        return SBool(z3.And(self.t, term(o)))
+        return SBool(z3.And(self.t, SBool._b(o)))
 
     __rand__ = __and__
 
     def __or__(self, o):
-        return SBool(z3.Or(self.t, term(o)))
+        return SBool(z3.Or(self.t, SBool._b(o)))
 
     __ror__ = __or__
 
     def __xor__(self, o):
-        return SBool(z3.Xor(self.t, term(o)))
+        return SBool(z3.Xor(self.t, SBool._b(o)))
 
     __rxor__ = __xor__
 
@@ -148,6 +153,31 @@ class SBool:
 
     def implies(self, o):
         return SBool(z3.Implies(self.t, term(o)))
+
+    def _as_num(self):
+        return SNum(z3.If(self.t, z3.IntVal(1), z3.IntVal(0)))
+
+    def __gt__(self, o):
+        return self._as_num() > o
+
+    def __ge__(self, o):
+        return self._as_num() >= o
+
+    def __lt__(self, o):
+        return self._as_num() < o
+
+    def __le__(self, o):
+        return self._as_num() <= o
+
+    def __add__(self, o):
+        return self._as_num() + o
+
+    __radd__ = __add__
+
+    def __mul__(self, o):
+        return self._as_num() * o
+
+    __rmul__ = __mul__
 
     def __repr__(self):
         return f"SBool({self.t})"
